@@ -592,3 +592,36 @@ def iterated_collection(fl, next_bb):
         if not work:
             break
     return out
+
+
+def order_edges(fl, is_a, is_b, strict=False):
+    """CFG edges on which a <= b (strict: a < b) is known, for operands recognised by the predicates is_a / is_b on
+    *operands* (op dicts), whatever comparison operator and operand order the code uses:
+        a <= b true | b >= a true | a > b false | b < a false        (non-strict)
+        a <  b true | b >  a true | a >= b false | b <= a false      (strict; these also imply a <= b)"""
+    out = set()
+    b = fl.body
+    for bi in fl.cfg.reachable():
+        for st in b.blocks[bi]['stmts']:
+            rv = st['rv']
+            if rv['k'] != 'bin' or rv['op'] not in ('Lt', 'Le', 'Gt', 'Ge') or st['dst']['proj']:
+                continue
+            x, y = rv['ops']
+            op = rv['op']
+            if is_a(x) and is_b(y):
+                pass
+            elif is_a(y) and is_b(x):
+                op = {'Lt': 'Gt', 'Gt': 'Lt', 'Le': 'Ge', 'Ge': 'Le'}[op]      # (b op a)  ==  (a op' b)
+            else:
+                continue
+            # now the statement reads  a op b
+            oc = fl.outcomes(None, st['dst']['l'])
+            if op == 'Lt':
+                out |= oc.get('true', set())
+            elif op == 'Ge':
+                out |= oc.get('false', set())
+            elif op == 'Le' and not strict:
+                out |= oc.get('true', set())
+            elif op == 'Gt' and not strict:
+                out |= oc.get('false', set())
+    return out
